@@ -34,7 +34,9 @@ ASSUMPTIONS = ['MACs are generated delimited by spaces; near-MACs (5 or 7 octets
                'Concurrency in (B) uses real threads with yields; the oracle is schedule independent.']
 
 UIDS = ['4242:abcdef0123456789:0011223344556677:1700000000000', '4242:abcdef0123456789:0011223344556677:17000000000001',
-        '77:00ff:aa:5', '77:00ff:aa:55']
+        '77:00ff:aa:5', '77:00ff:aa:55',
+        # uids are opaque to the logs API; a station that builds them from a host name hands in dots
+        'st1.example.com:77:00ff:aa:5', '77:00ff:aa:5.1']
 MAC_RE = re.compile(r'(?<![0-9A-Za-z:])((?:[0-9A-Fa-f]{2}:){3})(?:[0-9A-Fa-f]{2}:){2}[0-9A-Fa-f]{2}(?![0-9A-Za-z:])')
 
 
@@ -144,6 +146,10 @@ def check_history(case):
   linenos = {'log': _emit_lineno(), 'named': _emit_lineno('EMIT-LINE-NAMED')}
   runs = {}      # run idx -> dict(uid, rec, expected[], live, notified)
   flags = {'two_live': False, 'mac': False, 'dictargs': False}
+  # 'uidcopy': every API call gets its own, equal string object (a uid that travelled through a queue, JSON or a format call)
+  same = (lambda u: (u + ' ')[:-1]) if case.get('uidcopy') else (lambda u: u)
+  if case.get('uidcopy'):
+    flags['uidcopy'] = True
   n = 0
   try:
     for k, op in enumerate(case['ops']):
@@ -154,7 +160,7 @@ def check_history(case):
           continue
         rec = test_record.TestRecord(dut_id='d', station_id='s')
         st_ = {'uid': UIDS[ri], 'rec': rec, 'expected': [], 'live': True, 'notified': [0]}
-        logs.initialize_record_handler(st_['uid'], rec, lambda st_=st_: st_['notified'].__setitem__(0, st_['notified'][0] + 1))
+        logs.initialize_record_handler(same(st_['uid']), rec, lambda st_=st_: st_['notified'].__setitem__(0, st_['notified'][0] + 1))
         runs[ri] = st_
         if len([x for x in runs.values() if x['live']]) >= 2:
           flags['two_live'] = True
@@ -162,7 +168,7 @@ def check_history(case):
         st_ = runs.get(ri)
         if st_ is None or not st_['live']:
           continue
-        logs.remove_record_handler(st_['uid'])
+        logs.remove_record_handler(same(st_['uid']))
         st_['live'] = False
         st_['final_len'] = len(st_['rec'].log_records)
       elif kind == 'log':
@@ -174,7 +180,9 @@ def check_history(case):
           name = 'openhtf.core.vfcheck'
           targets = [x for x in runs.values() if x['live']]
         else:
-          root = logs.get_record_logger_for(uid)
+          root = logs.get_record_logger_for(same(uid))
+          if '.' in uid:
+            flags['dotted-uid'] = True
           suffix = {'record': None, 'phase': 'phase.my_phase', 'phase-dots': 'phase.a.b.c', 'plug': 'plug.MyPlug', 'deep': 'phase.p.sub.' + uid.replace(':', '_')}[lk]
           logger = root if suffix is None else root.getChild(suffix)
           name = 'openhtf.test_record.' + uid + ('' if suffix is None else '.' + suffix)
@@ -206,7 +214,7 @@ def check_history(case):
   finally:
     for st_ in runs.values():
       if st_['live']:
-        logs.remove_record_handler(st_['uid'])
+        logs.remove_record_handler(same(st_['uid']))
   # ---- compare
   for ri, st_ in sorted(runs.items()):
     got = list(st_['rec'].log_records)
@@ -266,15 +274,16 @@ def check_history(case):
 @st.composite
 def histories(draw):
   n = draw(st.integers(3, 30))
-  ops = [['start', draw(st.integers(0, 3))]]
+  nu = len(UIDS) - 1
+  ops = [['start', draw(st.integers(0, nu))]]
   for _ in range(n):
     kind = draw(st.sampled_from(['start', 'log', 'log', 'log', 'log', 'log', 'end']))
     if kind == 'log':
-      ops.append(['log', draw(st.integers(0, 3)), draw(st.sampled_from(['record', 'phase', 'phase-dots', 'plug', 'deep', 'framework'])),
+      ops.append(['log', draw(st.integers(0, nu)), draw(st.sampled_from(['record', 'phase', 'phase-dots', 'plug', 'deep', 'framework'])),
                   draw(st.sampled_from(LEVELS)), draw(st.sampled_from(SHAPES)), draw(st.integers(0, 3)), draw(st.sampled_from([0, 0, 1, 2]))])
     else:
-      ops.append([kind, draw(st.integers(0, 3))])
-  return {'ops': ops}
+      ops.append([kind, draw(st.integers(0, nu))])
+  return {'ops': ops, 'uidcopy': draw(st.sampled_from([False, False, True]))}
 
 
 # ------------------------------------------------------------------ part B: real tests
